@@ -333,6 +333,14 @@ def run(ck):
     # the "atoms" given to the arity test are the ones collected with that arity
     ga = calls_with_env(bp, lambda c: call_name(c) == '_get_atoms')
     ck.ob('MPT-reject', ff.loc(bp), len(ga) == 1 and 'natoms' in u(ga[0][0]), '_base_parser collects atoms with the section arity', key='MPT-reject|get-atoms')
+    # a trailing {...} belongs to the last *atom* when the atoms have not been taken off the line yet: the interaction's own metadata is looked for only
+    # after the atoms (and the "--" delimiter) were consumed -- so `A B {"k": 1}` and `A B {"k": 1} --` declare the same thing
+    top_idx = {id(st_): i for i, st_ in enumerate(bp.body)}
+    ga_stmt = [st_ for st_ in bp.body if len(ga) == 1 and any(n_ is ga[0][0] for n_ in ast.walk(st_))]
+    meta_stmts = [st_ for st_ in bp.body if any(isinstance(n_, ast.Call) and call_attr(n_) == 'startswith' and n_.args and try_fold(n_.args[0], default='') == '{' for n_ in ast.walk(st_))
+                  and any(isinstance(n_, ast.Call) and call_attr(n_) == 'pop' for n_ in ast.walk(st_))]
+    ck.ob('ORD-atoms-before-meta', ff.loc(bp), len(ga_stmt) == 1 and len(meta_stmts) == 1 and top_idx[id(ga_stmt[0])] < top_idx[id(meta_stmts[0])],
+          'the interaction metadata (a trailing {...}) is taken from what is left *after* the atoms were collected', key='ORD-atoms-before-meta|_base_parser')
     # arity lookup in the handlers uses the stripped name
     for name in sorted(base_handlers):
         fn = method(ffd, name)
@@ -671,6 +679,21 @@ def run(ck):
     ck.ob('PROV-map-names', mp.loc(pbl), ok and ok2, 'the shorthand "!NAME" declares residue NAME without fetching its block: the marker is stripped from the residue name the atoms get '
           '(_parse_blocks) and from the identifier (_blocks), so it names the same mapping as the longhand spelling', key='PROV-map-names|no-fetch-marker')
     prefix_order_table(ck, ff)
+    # ITP interaction lines: an atom column given by its number is read strictly (a line with too few columns is an error, not a shorter interaction)
+    itpm = idx.mod(ITP)
+    sp = itpm.func('ITPDirector._split_atoms_and_parameters')
+    ck.analysed(itpm, sp)
+    lps = [l for l in sp.body if isinstance(l, ast.For) and u(l.iter) == sp.args.args[2].arg]
+    ok = len(lps) == 1 and isinstance(lps[0].target, ast.Name)
+    if ok:
+        iv = lps[0].target.id
+        tok = sp.args.args[1].arg
+        strict = [(st_, c_) for st_, c_, _e in stmts_with_env(sp, lambda s_: any(isinstance(n_, ast.Subscript) and isinstance(n_.ctx, ast.Load) and u(n_) == '{}[{}]'.format(tok, iv)
+                                                                               for n_ in ast.walk(s_)) and not isinstance(s_, (ast.If, ast.For)), stmts=lps[0].body)]
+        rebinds = [n_ for n_ in ast.walk(lps[0]) if isinstance(n_, ast.Name) and n_.id == iv and isinstance(n_.ctx, ast.Store) and n_ is not lps[0].target]
+        ok = not rebinds and any(flow.implies(c_, ('atom', ('truth', 'isinstance({}, int)'.format(iv))))[0] for _s, c_ in strict)
+    ck.ob('MPT-reject', itpm.loc(sp), ok, 'an atom column given as a number is fetched by plain indexing of the line\'s fields (a missing column raises; a slice would quietly give fewer atoms)',
+          key='MPT-reject|itp-short-line')
     # .mapping node lines: what is written on the atom's own line wins over what the block identifier carries
     nodes_fn = mp.func('MappingDirector._nodes')
     ck.analysed(mp, nodes_fn)
